@@ -50,6 +50,15 @@ def make_target(shape: str):
                 finally:
                     gen.shape = None
                     gen.cfg.target = old_t
+        if shape.startswith("solo:"):
+            gen.solo = shape[5:]
+            gen.shape = "min"
+            try:
+                return gen.type(t, locus, depth, None)
+            finally:
+                gen.shape = None
+                gen.solo = None
+                gen.cfg.target = old_t
         gen.shape = None if shape in ("rand",) or shape.startswith("hetero") else shape
         try:
             return gen.type(t, locus, depth, None)
@@ -86,6 +95,17 @@ def sibling_key_strings(model, t: dict, idx: int) -> List[str]:
     return names + [f"a-{n}-b" for n in names]
 
 
+def solo_shapes(model, t: dict, idx: int) -> List[str]:
+    """for an object alternative: one shape per optional property (required properties plus exactly that one) -
+    the shapes on which two alternatives with overlapping property names are most alike."""
+    alt = model.resolve_alias(t["items"][idx])
+    if alt["kind"] == "array":
+        alt = model.resolve_alias(alt["element"])
+    if alt["kind"] == "reference" and alt["name"] in model.structs:
+        return ["solo:" + p["name"] for p in model.flat_props(alt["name"]) if p.get("optional")][:40]
+    return []
+
+
 def make_fixed_target(value: str):
     def target(gen: tvgen.Gen, t: dict, locus: str, depth: int) -> TV:
         return tvgen.P(value, ("base", "string"))
@@ -105,8 +125,9 @@ def _work(args) -> dict:
             continue
         occ_t = sub.objects.type_at.get(occ)
         extra_shapes = [("key:" + s, s) for s in (sibling_key_strings(sub.model, occ_t, idx) if occ_t else [])]
-        for shape in sorted(set(shapes)) + [e[0] for e in extra_shapes]:
-            n = shapes.count(shape) if not shape.startswith("key:") else 1
+        solos = solo_shapes(sub.model, occ_t, idx) if occ_t else []
+        for shape in sorted(set(shapes)) + [e[0] for e in extra_shapes] + solos:
+            n = shapes.count(shape) if not shape.startswith(("key:", "solo:")) else 1
             if shape.startswith("key:"):
                 cfg = GenCfg(route=route, target=make_fixed_target(shape[4:]))
             else:
